@@ -240,6 +240,10 @@ func readSnapshotBlockBytes(reader SnapshotReader) ([]byte, error) {
 	}
 	buf := make([]byte, n1)
 	n2, err := io.ReadFull(reader, buf)
+	if err == io.EOF && n1 > 0 {
+		// A length prefix without its block: the snapshot is cut, not complete.
+		err = io.ErrUnexpectedEOF
+	}
 	if err != nil {
 		return nil, err
 	}
